@@ -4,12 +4,13 @@ into /verif/seeded/S-Cxx-{A,B}/ after CONFIRMING each one in a scratch worktree:
   * the demonstration passes on the unmodified tree,
   * the patch applies, the repository builds and its whole test suite passes,
   * the demonstration fails with the patch applied.
-Usage: seed_import.py C01 C02 ...   (worktree /tmp/wt-verify is created and removed)
+Usage: seed_import.py [--round2] C01 C02 ...   (worktree /tmp/wt-verify is created and removed)
 """
 import json, os, re, shutil, subprocess, sys
 
 ENV = dict(os.environ, GOFLAGS="-mod=mod", GOPROXY="off", GOSUMDB="off", GOTOOLCHAIN="local")
 WT = "/tmp/wt-verify"
+SRC_PREFIX, ID_PREFIX = "seed", "S"
 
 
 def sh(cmd, cwd=None, timeout=900):
@@ -30,10 +31,10 @@ def parse_demo(path):
 
 
 def verify(pid, ab):
-    src = f"/tmp/seed-{pid}"
+    src = f"/tmp/{SRC_PREFIX}-{pid}"
     patch = f"{src}/{ab}.patch.diff"
     demos = [f for f in os.listdir(src) if f.startswith(ab + ".demo")]
-    rec = {"id": f"S-{pid}-{ab}", "property": pid}
+    rec = {"id": f"{ID_PREFIX}-{pid}-{ab}", "property": pid}
     if not os.path.exists(patch) or not demos:
         rec["error"] = "missing patch or demo"
         return rec
@@ -64,7 +65,7 @@ def verify(pid, ab):
     clean()
     rec["confirmed"] = rec["demo_without_change"] == "pass" and rec["demo_with_change"] == "fail" and rec["suite_with_change"] == "pass"
     if rec["confirmed"]:
-        d = f"/verif/seeded/S-{pid}-{ab}"
+        d = f"/verif/seeded/{ID_PREFIX}-{pid}-{ab}"
         os.makedirs(d, exist_ok=True)
         shutil.copy(patch, f"{d}/patch.diff")
         shutil.copy(demo, f"{d}/" + os.path.basename(place))
@@ -72,7 +73,7 @@ def verify(pid, ab):
         if os.path.exists(notes):
             shutil.copy(notes, f"{d}/notes.md")
         meta = {
-            "id": f"S-{pid}-{ab}", "property": pid, "checks": [pid],
+            "id": f"{ID_PREFIX}-{pid}-{ab}", "property": pid, "checks": [pid],
             "origin": "independent sub-agent given only the property text and a scratch worktree",
             "what": open(notes).read().split("\n\n")[0][:600] if os.path.exists(notes) else "",
             "needs_to_manifest": "see notes.md",
@@ -85,6 +86,9 @@ def verify(pid, ab):
 
 
 if __name__ == "__main__":
+    if len(sys.argv) > 1 and sys.argv[1] == "--round2":
+        SRC_PREFIX, ID_PREFIX = "seed2", "S2"
+        sys.argv.pop(1)
     sh(f"git -C /repo worktree remove --force {WT}")
     r = sh(f"git -C /repo worktree add -q --detach {WT} HEAD")
     if r.returncode != 0:
@@ -95,7 +99,7 @@ if __name__ == "__main__":
                 try:
                     rec = verify(pid, ab)
                 except Exception as e:  # noqa
-                    rec = {"id": f"S-{pid}-{ab}", "error": repr(e)}
+                    rec = {"id": f"{ID_PREFIX}-{pid}-{ab}", "error": repr(e)}
                 print(json.dumps(rec), flush=True)
     finally:
         sh(f"git -C /repo worktree remove --force {WT}")
